@@ -383,5 +383,13 @@ Proof.
       intros Hi Hj Oi Oj; try (apply U; assumption || lia); try lia; try discriminate.
     all: try (exfalso; match goal with H : context [owner (tasks ?s0 ?k)] |- _ => destruct (IT k ltac:(lia)); lia end).
     all: try (subst; apply U; solve [assumption | lia]).
-    all: idtac "UREM". Show.
+    all: try (exfalso; unfold noresched, resched_on in Ha; subst; rewrite Z.eqb_refl in Ha; discriminate).
+  - (* handle *)
+    intros i. destruct e; cbn [is_issue noresched resched_on] in *; try specialize (Hnew eq_refl); unf; proj; brk; proj;
+      intros Hi Oi Si; try (apply H; assumption || lia); try lia; try discriminate; try reflexivity.
+    all: try (exfalso; match goal with H : context [owner (tasks ?s0 ?k)] |- _ => destruct (IT k ltac:(lia)); lia end).
+    all: try (exfalso; unfold noresched, resched_on in Ha; subst; rewrite Z.eqb_refl in Ha; discriminate).
+    all: try (subst; apply H; solve [assumption | lia]).
+    all: try (subst; reflexivity).
+    all: idtac "HREM". Show.
 Abort.
